@@ -258,7 +258,10 @@ def generic(res, pid, prop_v, corr_runs, oracle_prop, what_for, rule, thorough_r
     # concrete property failures on the implementation
     seen = set()
     for f in oracle_fails:
-        key = (f.get("clause") or f.get("kind") or "")[:50]
+        # one report per listed finding and one per clause among the cases no listed finding covers (a new failure of a
+        # clause that a known finding also fails must not hide behind it)
+        kf = known_match(pid, trim_case(f))
+        key = "known:" + kf["id"] if kf else (f.get("clause") or f.get("kind") or "")[:50]
         if key in seen:
             continue
         seen.add(key)
